@@ -2,6 +2,7 @@ package verifsim
 
 import (
 	"fmt"
+	"strings"
 	"time"
 
 	"github.com/bitcoin-sv/block-headers-service/config"
@@ -11,13 +12,44 @@ import (
 // contradicts a checkpoint (C07; the forbidden variant also provokes bans for C18 "the real way").
 func (g *p2pRig) setupMisbehaviour(honestChain []*MHeader) {
 	t := g.t
-	L := len(honestChain)
-	if len(g.nodes) < 2 {
-		// add a node for the purpose
+	addNode := func() {
 		g.nodes = append(g.nodes, &simNode{idx: len(g.nodes), ip: []byte{byte(20 + len(g.nodes)), byte(10 + len(g.nodes)), 1, byte(1 + len(g.nodes))}, cap: g.capAll, tree: g.tree,
 			silentAt: -1, closeAt: -1, forbidAt: -1, nonce: uint64(1000 + 100*len(g.nodes)), announce: "inv"})
 	}
-	n := g.nodes[1+t.Draw(len(g.nodes)-1, "bad-node")]
+	if len(g.nodes) < 2 {
+		addNode() // a node for the purpose
+	}
+	first := g.nodes[1+t.Draw(len(g.nodes)-1, "bad-node")]
+	g.makeBad(first, honestChain, 1)
+	// a second misbehaving node (C07): its own forbidden header, or its own - different - contradiction of a
+	// checkpoint; what the service learnt from the first offender must not make it blind to the second
+	if g.focus == "C07" && t.Chance(1, 3, "second-bad-node") {
+		if len(g.nodes) < 3 {
+			addNode()
+		}
+		var rest []*simNode
+		for _, x := range g.nodes[1:] {
+			if x != first {
+				rest = append(rest, x)
+			}
+		}
+		g.makeBad(rest[t.Draw(len(rest), "bad-node-2")], honestChain, 2)
+		g.r.Probe("two-misbehaving-nodes")
+	}
+	// such a node only ever talks forked scenarios: one reply must be able to carry the whole branch
+	for _, x := range g.nodes {
+		x.cap = 2000
+	}
+	g.capAll = 2000
+}
+
+func (g *p2pRig) makeBad(n *simNode, honestChain []*MHeader, ord int) {
+	t := g.t
+	L := len(honestChain)
+	mkey := "misbehaviour"
+	if ord > 1 {
+		mkey = fmt.Sprintf("misbehaviour_%d", ord)
+	}
 	n.silentAt, n.closeAt = -1, -1
 	kind := "forbidden"
 	if g.focus == "C07" && len(g.ckpts) > 0 && !g.disableCk && t.Chance(1, 2, "contra-checkpoint") {
@@ -53,7 +85,7 @@ func (g *p2pRig) setupMisbehaviour(honestChain []*MHeader) {
 		if at > 0 {
 			g.r.Cfg["forbidden_after_accepted"] = true
 		}
-		g.r.Cfg["misbehaviour"] = fmt.Sprintf("n%d serves forbidden header at height %d", n.idx, F.Height)
+		g.r.Cfg[mkey] = fmt.Sprintf("n%d serves forbidden header at height %d", n.idx, F.Height)
 	case "contra":
 		// a branch that forks below a checkpoint and reaches its height with a different header
 		lastCk := int(g.ckpts[len(g.ckpts)-1].Height)
@@ -74,30 +106,33 @@ func (g *p2pRig) setupMisbehaviour(honestChain []*MHeader) {
 			tip = g.mine(tip, base.Add(-time.Duration(L-int(tip.Height))*10*time.Minute-30*time.Second), bitsNormal[0])
 		}
 		// (never more work than the honest chain: past the checkpoint nothing would stop such a branch from winning)
-		if tip.Height >= honestChain[L-1].Height {
-			honestTip := honestChain[L-1]
+		if tip.Height >= g.honest.best.Height {
+			honestTip := g.honest.best
 			for honestTip.Height <= tip.Height {
 				honestTip = g.mine(honestTip, base.Add(-30*time.Second), bitsNormal[0])
 			}
 			g.honest.best = honestTip
 		}
 		n.role, n.best = "contra", tip
-		g.r.Cfg["misbehaviour"] = fmt.Sprintf("n%d contradicts checkpoint %d (fork parent height %d)", n.idx, ckH, at)
+		g.r.Cfg[mkey] = fmt.Sprintf("n%d contradicts checkpoint %d (fork parent height %d)", n.idx, ckH, at)
 	}
-	// such a node only ever talks forked scenarios: one reply must be able to carry the whole branch
-	for _, x := range g.nodes {
-		x.cap = 2000
-	}
-	g.capAll = 2000
 }
 
 // afterDeliver is called after node->service bytes were handed to the service.
 func (g *p2pRig) afterDeliver(c *nodeConn) {
+	host := c.node.ip.String()
+	now := g.now()
+	if c.misbehaved != "" && !c.misDelivered && c.misEnd > 0 && c.nodeEnd.Written()-c.nodeEnd.PendingOut() >= c.misEnd {
+		c.misDelivered = true
+		c.ghAtMis = len(c.getHdrs)
+		if c.misbehaved == "forbidden" {
+			g.banUntil[host] = now.Add(g.w.Cfg.P2P.BanDuration)
+			g.r.Logf("model: host %s banned until +%v", host, g.w.Cfg.P2P.BanDuration)
+		}
+	}
 	if c.nodeEnd.PendingOut() != 0 {
 		return
 	}
-	host := c.node.ip.String()
-	now := g.now()
 	if !c.versionDelivered && c.sentVer {
 		c.versionDelivered = true
 		exp := "admit"
@@ -123,14 +158,6 @@ func (g *p2pRig) afterDeliver(c *nodeConn) {
 			g.r.Probe("ban-expired-readmitted")
 		}
 		c.expect, c.verdictPending = exp, true
-	}
-	if c.misbehaved != "" && !c.misDelivered {
-		c.misDelivered = true
-		c.ghAtMis = len(c.getHdrs)
-		if c.misbehaved == "forbidden" {
-			g.banUntil[host] = now.Add(g.w.Cfg.P2P.BanDuration)
-			g.r.Logf("model: host %s banned until +%v", host, g.w.Cfg.P2P.BanDuration)
-		}
 	}
 }
 
@@ -165,11 +192,17 @@ func (g *p2pRig) admissionVerdicts() {
 			c.admittedLive = false
 		}
 		// misbehaving connections must be closed by the service once the offending reply was delivered
+		// (a contradiction of a checkpoint with several checkpoints configured is blurred by the recorded
+		// pointer-lag finding: the signature says which case it is)
+		det := c.misbehaved
+		if strings.HasPrefix(c.misbehaved, "contra") && len(g.ckpts) >= 2 {
+			det = "contra|checkpoints>=2"
+		}
 		if c.misDelivered && !c.dead && !c.closed {
-			r.Fail("C07", "not-disconnected", c.misbehaved, "%s delivered a %s header and is still connected", c, c.misbehaved)
+			r.Fail("C07", "not-disconnected", det, "%s delivered a %s header and is still connected", c, c.misbehaved)
 		}
 		if c.misDelivered && len(c.getHdrs) > c.ghAtMis {
-			r.Fail("C07", "requested-after-misbehaviour", c.misbehaved, "the service sent %d further getheaders to %s after its %s header", len(c.getHdrs)-c.ghAtMis, c, c.misbehaved)
+			r.Fail("C07", "requested-after-misbehaviour", det, "the service sent %d further getheaders to %s after its %s header", len(c.getHdrs)-c.ghAtMis, c, c.misbehaved)
 		}
 	}
 	// the forbidden header is never served
